@@ -46,6 +46,9 @@ class G:
             fs.append({"n": ("f%d" % i) if named else "", "t": t,
                        "ren": ("r%d_x" % i) if named and self.rng.random() < 0.25 else "",
                        "skip": plain and self.rng.random() < 0.2})
+            if fs[-1]["skip"] and self.rng.random() < 0.6:
+                # a converted field of the same type right after a skipped one (positional mix-ups show)
+                fs.append({"n": ("f%dn" % i) if named else "", "t": list(t), "ren": "", "skip": False})
         return fs
 
     def new_type(self, depth):
@@ -243,7 +246,9 @@ def generate(seed, ntypes, nvalues):
         else:
             attr = "#[storage(%s)]" % base
         zst = base == "NullStorage"
-        comps.append({"tid": 92000000 + i, "name": name, "spec": {"base": base, "inner": inner}, "attr": attr, "zst": zst})
+        # other attributes / doc comments may stand before the storage request
+        pre = ["", "/// documented component\n", "#[allow(dead_code)]\n", "#[repr(C)]\n"][i % 4]
+        comps.append({"tid": 92000000 + i, "name": name, "spec": {"base": base, "inner": inner}, "attr": pre + attr, "zst": zst})
     return g.types, items, comps
 
 
